@@ -199,6 +199,7 @@ pub fn scenario(seed: u64, rep: &mut Report) {
 pub fn run_r0(p: &Params, rep: &mut Report) {
     let n = p.budget(160, 12_000);
     for i in 0..n {
-        scenario(p.shard_seed(0x15_000 + i), rep);
+        let seed = p.shard_seed(0x15_000 + i);
+        crate::util::guarded(rep, seed, |rep| scenario(seed, rep));
     }
 }
